@@ -6,6 +6,7 @@ import (
 	"sort"
 	"time"
 
+	"github.com/samber/lo"
 	corev1 "k8s.io/api/core/v1"
 	metav1 "k8s.io/apimachinery/pkg/apis/meta/v1"
 	"k8s.io/apimachinery/pkg/types"
@@ -23,6 +24,7 @@ import (
 // Scenario is the constant part of a behaviour of BudgetRounds.tla.
 type Scenario struct {
 	Pools     map[string][]Budget `json:"pools"`     // pool -> budget list
+	Replicas  map[string]int      `json:"replicas"`  // static pools: pool -> replicas
 	PoolOf    []string            `json:"poolOf"`    // node i (1-based) -> pool
 	KindOf    []string            `json:"kindOf"`    // node i -> empty | drifted | under
 	InitPhase []string            `json:"initPhase"` // node i -> absent | claim | registered | init
@@ -91,6 +93,9 @@ func newSim(sc Scenario, sink func(trace.M)) (*sim, error) {
 		np, manifest, err := PoolFromManifest(name, sc.Pools[name])
 		if err != nil {
 			return nil, fmt.Errorf("pool %s: manifest %s: %w", name, manifest, err)
+		}
+		if r, ok := sc.Replicas[name]; ok {
+			np.Spec.Replicas = lo.ToPtr(int64(r))
 		}
 		w.EnvCreate(np)
 		// what the nodepool validation / readiness controllers report for a healthy pool
@@ -199,8 +204,8 @@ func (s *sim) initialize(i int) {
 		c.StatusConditions().SetTrue(v1.ConditionTypeInitialized)
 		// what the nodeclaim-disruption controller would have decided for this node's kind
 		switch s.sc.KindOf[i-1] {
-		case "drifted":
-			// drifted and not (yet) consolidatable, so that the drift method - not emptiness - picks it
+		case "drifted", "sdrifted":
+			// drifted and not (yet) consolidatable, so that the (static) drift method - not emptiness - picks it
 			c.StatusConditions().SetTrue(v1.ConditionTypeDrifted)
 		default:
 			c.StatusConditions().SetTrue(v1.ConditionTypeConsolidatable)
